@@ -37,3 +37,621 @@ Definition rewalk_excluded (sub script : bytes) : bool :=
   | Ret w => negb (bytes_eqb w tail)
   | _ => true
   end.
+
+(* ================================================================================================
+   Part 0 — the regenerated constants are the consensus ones (a changed literal in /repo breaks here) *)
+Lemma g_none : gen_sighash_none = SIGHASH_NONE. Proof. reflexivity. Qed.
+Lemma g_single : gen_sighash_single = SIGHASH_SINGLE. Proof. reflexivity. Qed.
+Lemma g_forkid : gen_sighash_forkid = SIGHASH_FORKID. Proof. reflexivity. Qed.
+Lemma g_acp : gen_sighash_anyonecanpay = SIGHASH_ANYONECANPAY. Proof. reflexivity. Qed.
+Lemma g_forkid_btg : N.shiftl gen_forkid_btg gen_forkid_shift = N.shiftl FORKID_BTG 8. Proof. reflexivity. Qed.
+Lemma g_legacy_masks : gen_legacy_mask_none = 31 /\ gen_legacy_mask_single = 31. Proof. split; reflexivity. Qed.
+Lemma g_single_value : N.shiftl gen_single_value_base gen_single_value_shift = 2 ^ 248. Proof. vm_compute. reflexivity. Qed.
+Lemma g_blank : gen_blank_amount = 2 ^ 64 - 1. Proof. vm_compute. reflexivity. Qed.
+Lemma g_sw_masks : gen_sw_seq_mask_single = 31 /\ gen_sw_seq_mask_none = 31 /\ gen_sw_out_mask_single = 31 /\ gen_sw_out_mask_none = 31.
+Proof. repeat split; reflexivity. Qed.
+Lemma g_grs_masks : gen_grs_seq_mask_single = 31 /\ gen_grs_seq_mask_none = 31 /\ gen_grs_out_mask_single = 31 /\ gen_grs_out_mask_none = 31.
+Proof. repeat split; reflexivity. Qed.
+Lemma g_codesep : gen_codeseparator = [n2b OP_CODESEPARATOR]. Proof. vm_compute. reflexivity. Qed.
+Lemma g_zero32 : gen_zero32 = zero32. Proof. vm_compute. reflexivity. Qed.
+
+(* ================================================================================================
+   Part 1 — pycoin's instruction decoder (C12 model, generated tables) vs Core's GetScriptOp *)
+Definition op_class_ok (b : byte) : bool :=
+  let o := b2n b in
+  match const_by_opcode const_table o, sized_by_opcode sized_table o, var_by_opcode variable_table o with
+  | Some _, _, _ => (o =? 0) || (78 <? o)
+  | None, Some sz, _ => (sz =? o) && (1 <=? o) && (o <=? 75)
+  | None, None, Some (w, _) =>
+    ((o =? 76) && (w =? 1)%nat) || ((o =? 77) && (w =? 2)%nat) || ((o =? 78) && (w =? 4)%nat)
+  | None, None, None => 78 <? o
+  end.
+Lemma op_class_all b : op_class_ok b = true.
+Proof. destruct b; vm_compute; reflexivity. Qed.
+
+(* new_pc and is_ok that pycoin reports, read off Core's result: on failure pycoin's new_pc is one more
+   than the number of bytes Core's iterator had consumed *)
+Definition bridge_res (s : bytes) : nat * bool :=
+  match core_get_op s with GOk _ len => (len, true) | GFail adv => (S adv, false) end.
+
+Lemma slice_len1 {A} (x : A) (r : list A) n : length (slice 1 (1 + n) (x :: r)) = Nat.min n (length r).
+Proof. rewrite slice_length. cbn [length]. f_equal; lia. Qed.
+
+Lemma slice_1_firstn {A} (x : A) (r : list A) n : slice 1 (1 + n) (x :: r) = firstn n r.
+Proof. unfold slice. replace (1 + n - 1)%nat with n by lia. reflexivity. Qed.
+
+Lemma getop_bridge b r : exists d,
+  btc_get_opcode (b :: r) 0 false
+  = Ret (b2n b, d, fst (bridge_res (b :: r)), snd (bridge_res (b :: r))).
+Proof.
+  pose proof (op_class_all b) as K. unfold op_class_ok in K.
+  unfold btc_get_opcode, get_opcode, bridge_res, core_get_op.
+  unfold OP_PUSHDATA4, OP_PUSHDATA1, OP_PUSHDATA2.
+  cbn [nth_error]. set (o := b2n b) in *.
+  destruct (const_by_opcode const_table o) as [d|] eqn:EC.
+  { exists (Some d). destruct (o =? 0) eqn:E0.
+    - assert (o = 0) by lia. rewrite H.
+      replace (0 <=? 78) with true by reflexivity. replace (0 <? 76) with true by reflexivity.
+      rewrite (proj2 (Nat.ltb_ge (length r) 0)) by lia. rewrite Nat.sub_0_r.
+      replace (N.of_nat (length r) <? 0) with false by lia. reflexivity.
+    - replace (o <=? 78) with false by lia. reflexivity. }
+  destruct (sized_by_opcode sized_table o) as [sz|] eqn:ES.
+  { assert (sz = o /\ 1 <= o <= 75) as [-> Ho] by lia.
+    replace (o <=? 78) with true by lia. replace (o <? 76) with true by lia.
+    rewrite (proj2 (Nat.ltb_ge (length r) 0)) by lia. rewrite Nat.sub_0_r.
+    change (0 + 1)%nat with 1%nat. rewrite slice_len1.
+    destruct (N.of_nat (length r) <? o) eqn:EL.
+    - replace (Nat.min (N.to_nat o) (length r) <? N.to_nat o)%nat with true by lia.
+      eexists. reflexivity.
+    - replace (Nat.min (N.to_nat o) (length r) <? N.to_nat o)%nat with false by lia.
+      cbn [andb]. eexists. reflexivity. }
+  destruct (var_by_opcode variable_table o) as [[w ms]|] eqn:EV.
+  { assert (Hw : (o = 76 /\ w = 1%nat) \/ (o = 77 /\ w = 2%nat) \/ (o = 78 /\ w = 4%nat)) by lia.
+    assert (Hww : (if o <? 76 then 0%nat else if o =? 76 then 1%nat else if o =? 77 then 2%nat else 4%nat) = w).
+    { destruct Hw as [[-> ->]|[[-> ->]|[-> ->]]]; reflexivity. }
+    rewrite Hww.
+    replace (o <=? 78) with true by lia. replace (o <? 76) with false by lia.
+    change (0 + 1)%nat with 1%nat. rewrite slice_len1, slice_1_firstn.
+    destruct (length r <? w)%nat eqn:EL.
+    - replace (Nat.min w (length r) <? w)%nat with true by lia. eexists. cbn [fst snd]. repeat f_equal; lia.
+    - replace (Nat.min w (length r) <? w)%nat with false by lia.
+      cbn [length]. replace (S (length r) - (1 + w))%nat with (length r - w)%nat by lia.
+      destruct (N.of_nat (length r - w) <? le_decode (firstn w r)) eqn:ED.
+      + eexists. cbn [fst snd]. repeat f_equal; lia.
+      + rewrite slice_length. cbn [length].
+        match goal with |- context [(?a <? ?b)%nat] => replace (a <? b)%nat with false by lia end.
+        cbn [andb]. eexists. cbn [fst snd]. repeat f_equal; lia. }
+  exists None. replace (o <=? 78) with false by lia. reflexivity.
+Qed.
+
+(* ================================================================================================
+   Part 2 — decoding at pc = decoding the suffix at 0 *)
+Definition shift_res (k : nat) (r : outcome (N * option bytes * nat * bool)) :=
+  match r with
+  | Ret (o, d, npc, ok) => Ret (o, d, (k + npc)%nat, ok)
+  | Raise e => Raise e
+  | OutOfFuel => OutOfFuel
+  end.
+
+Lemma skipn_add {A} (a b : nat) (l : list A) : skipn (a + b) l = skipn b (skipn a l).
+Proof.
+  revert l; induction a as [|a IH]; intros l; [reflexivity|].
+  destruct l as [|x l]; cbn [Nat.add skipn]; [now destruct b | apply IH].
+Qed.
+
+Lemma nth_error_skipn0 {A} (l : list A) pc : nth_error l pc = nth_error (skipn pc l) 0.
+Proof.
+  revert l; induction pc as [|pc IH]; intros [|x l]; try reflexivity.
+  cbn [skipn nth_error]. apply IH.
+Qed.
+
+Lemma slice_shift {A} (l : list A) pc a n :
+  slice (pc + a) (pc + a + n) l = slice (0 + a) (0 + a + n) (skipn pc l).
+Proof.
+  unfold slice. rewrite skipn_add. cbn [Nat.add]. f_equal. lia.
+Qed.
+
+Ltac npc_eq := cbn [shift_res];
+  match goal with |- Ret (_, _, ?c, _) = Ret (_, _, ?c', _) => replace c with c' by lia; reflexivity end.
+
+Lemma get_opcode_shift script pc m :
+  btc_get_opcode script pc m = shift_res pc (btc_get_opcode (skipn pc script) 0 m).
+Proof.
+  unfold btc_get_opcode, get_opcode.
+  set (s' := skipn pc script).
+  assert (F1 : nth_error script pc = nth_error s' 0) by apply nth_error_skipn0.
+  assert (F2 : forall a n, slice (pc + a) (pc + a + n) script = slice (0 + a) (0 + a + n) s')
+    by (intros; apply slice_shift).
+  assert (F2' : forall a b n, slice (pc + a + b) (pc + a + b + n) script = slice (0 + a + b) (0 + a + b + n) s').
+  { intros. pose proof (F2 (a + b)%nat n) as Q. rewrite !Nat.add_assoc in Q. exact Q. }
+  assert (F3 : forall a b, (length script - (pc + a + b) = length s' - (0 + a + b))%nat).
+  { intros. unfold s'. rewrite skipn_length. lia. }
+  rewrite F1. destruct (nth_error s' 0) as [ob|]; [|reflexivity].
+  destruct (const_by_opcode const_table (b2n ob)) as [d|]; [npc_eq|].
+  destruct (sized_by_opcode sized_table (b2n ob)) as [size|].
+  { rewrite F2.
+    destruct (length (slice (0 + 1) (0 + 1 + N.to_nat size) s') <? N.to_nat size)%nat;
+      [npc_eq|].
+    destruct (m && is_const_value const_table (slice (0 + 1) (0 + 1 + N.to_nat size) s')); [reflexivity|].
+    npc_eq. }
+  destruct (var_by_opcode variable_table (b2n ob)) as [[w ms]|]; [|npc_eq].
+  rewrite F2.
+  destruct (length (slice (0 + 1) (0 + 1 + w) s') <? w)%nat; [npc_eq|].
+  rewrite F3.
+  set (size := le_decode (slice (0 + 1) (0 + 1 + w) s')).
+  destruct (N.of_nat (length s' - (0 + 1 + w)) <? size); [npc_eq|].
+  rewrite F2'.
+  destruct (length (slice (0 + 1 + w) (0 + 1 + w + N.to_nat size) s') <? N.to_nat size)%nat;
+    [npc_eq|].
+  destruct (m && (is_sized_value sized_table size || (size <=? ms))); [reflexivity|].
+  npc_eq.
+Qed.
+
+(* ================================================================================================
+   Part 3 — the pc walk of delete_subscript as a function of the unread suffix *)
+Lemma core_get_op_ok s o len : core_get_op s = GOk o len ->
+  (1 <= len <= length s)%nat /\ exists b r, s = b :: r /\ o = b2n b.
+Proof.
+  unfold core_get_op. destruct s as [|b r]; [discriminate|].
+  unfold OP_PUSHDATA4, OP_PUSHDATA1, OP_PUSHDATA2. cbn [length].
+  destruct (b2n b <=? 78).
+  - set (w := if b2n b <? 76 then 0%nat else if b2n b =? 76 then 1%nat else if b2n b =? 77 then 2%nat else 4%nat).
+    destruct (length r <? w)%nat eqn:E1; [discriminate|].
+    set (nSize := if b2n b <? 76 then b2n b else le_decode (firstn w r)).
+    destruct (N.of_nat (length r - w) <? nSize) eqn:E2; [discriminate|].
+    intros H; injection H as <- <-. split; [lia|]. eauto.
+  - intros H; injection H as <- <-. split; [lia|]. eauto.
+Qed.
+
+Lemma bridge_npc_pos s : (1 <= fst (bridge_res s))%nat.
+Proof.
+  unfold bridge_res. destruct (core_get_op s) as [o len|adv] eqn:E; cbn [fst]; [|lia].
+  apply core_get_op_ok in E. lia.
+Qed.
+
+Fixpoint dws (fuel : nat) (s sub : bytes) : bytes :=
+  match fuel with
+  | O => []
+  | S f =>
+    match s with
+    | [] => []
+    | _ => let npc := fst (bridge_res s) in
+           let sec := firstn npc s in
+           (if bytes_eqb sec sub then [] else sec) ++ dws f (skipn npc s) sub
+    end
+  end.
+
+Lemma dws_nil fuel sub : dws fuel [] sub = [].
+Proof. destruct fuel; reflexivity. Qed.
+
+Lemma walk_suffix sub fuel : forall script pc, (length script - pc <= fuel)%nat ->
+  delete_walk fuel script sub pc = Ret (dws fuel (skipn pc script) sub).
+Proof.
+  induction fuel as [|f IH]; intros script pc Hf.
+  - cbn [delete_walk]. replace (length script <=? pc)%nat with true by lia. reflexivity.
+  - cbn [delete_walk]. destruct (length script <=? pc)%nat eqn:E.
+    + rewrite skipn_all2 by lia. reflexivity.
+    + rewrite get_opcode_shift.
+      destruct (skipn pc script) as [|b r] eqn:ES.
+      { exfalso. assert (length (skipn pc script) = 0%nat) by (rewrite ES; reflexivity).
+        rewrite skipn_length in H. lia. }
+      destruct (getop_bridge b r) as [d Hd]. rewrite Hd. cbn [shift_res].
+      set (npc := fst (bridge_res (b :: r))).
+      assert (Hpos : (1 <= npc)%nat) by apply bridge_npc_pos.
+      rewrite IH by lia. cbn [bind].
+      rewrite skipn_add, ES.
+      assert (Hsec : slice pc (pc + npc) script = firstn npc (b :: r)).
+      { unfold slice. rewrite ES. f_equal. lia. }
+      rewrite Hsec. cbn [dws]. fold npc.
+      destruct (bytes_eqb (firstn npc (b :: r)) sub); reflexivity.
+Qed.
+
+Lemma delete_subscript_dws script sub :
+  delete_subscript script sub = Ret (dws (length script) script sub).
+Proof. unfold delete_subscript. rewrite walk_suffix by lia. reflexivity. Qed.
+
+(* ================================================================================================
+   Part 4 — FindAndDelete *)
+Lemma is_prefix_app p x : is_prefix p (p ++ x) = true.
+Proof. induction p as [|a p IH]; cbn [is_prefix app]; [reflexivity|]. now rewrite byte_eqb_refl, IH. Qed.
+
+Lemma is_prefix_inv p s : is_prefix p s = true -> s = p ++ skipn (length p) s.
+Proof.
+  revert s; induction p as [|a p IH]; intros s H; [reflexivity|].
+  destruct s as [|b s]; cbn [is_prefix] in H; [discriminate|].
+  apply andb_true_iff in H. destruct H as [H1 H2]. apply byte_eqb_eq in H1. subst b.
+  cbn [length skipn app]. f_equal. now apply IH.
+Qed.
+
+(* a complete instruction decodes the same whatever follows it *)
+Definition complete_instruction (p : bytes) : Prop := exists o, core_get_op p = GOk o (length p).
+
+Lemma core_get_op_prefix p x o : core_get_op p = GOk o (length p) -> core_get_op (p ++ x) = GOk o (length p).
+Proof.
+  unfold core_get_op. destruct p as [|b r]; [discriminate|]. cbn [app length].
+  unfold OP_PUSHDATA4, OP_PUSHDATA1, OP_PUSHDATA2.
+  destruct (b2n b <=? 78); [|auto].
+  set (w := if b2n b <? 76 then 0%nat else if b2n b =? 76 then 1%nat else if b2n b =? 77 then 2%nat else 4%nat).
+  destruct (length r <? w)%nat eqn:E1; [discriminate|].
+  assert (Hf : firstn w (r ++ x) = firstn w r).
+  { rewrite firstn_app. replace (w - length r)%nat with 0%nat by lia. cbn [firstn]. apply app_nil_r. }
+  rewrite Hf.
+  set (nSize := if b2n b <? 76 then b2n b else le_decode (firstn w r)).
+  destruct (N.of_nat (length r - w) <? nSize) eqn:E2; [discriminate|].
+  intros H; injection H as <- HL.
+  rewrite app_length.
+  replace (length r + length x <? w)%nat with false by lia.
+  replace (N.of_nat (length r + length x - w) <? nSize) with false by lia.
+  f_equal. lia.
+Qed.
+
+Lemma complete_nonempty p : complete_instruction p -> p <> [].
+Proof. intros [o H] ->. discriminate. Qed.
+
+Lemma dws_cons f b r sub : dws (S f) (b :: r) sub =
+  (if bytes_eqb (firstn (fst (bridge_res (b :: r))) (b :: r)) sub then [] else firstn (fst (bridge_res (b :: r))) (b :: r))
+  ++ dws f (skipn (fst (bridge_res (b :: r))) (b :: r)) sub.
+Proof. reflexivity. Qed.
+
+Lemma dws_fuel sub : forall f1 f2 s, (length s <= f1)%nat -> (length s <= f2)%nat -> dws f1 s sub = dws f2 s sub.
+Proof.
+  induction f1 as [|f1 IH]; intros f2 s H1 H2.
+  - destruct s; [|cbn in H1; lia]. now rewrite !dws_nil.
+  - destruct s as [|b r]; [now rewrite !dws_nil|].
+    destruct f2 as [|f2]; [cbn in H2; lia|].
+    cbn [dws]. f_equal. pose proof (bridge_npc_pos (b :: r)).
+    apply IH; rewrite skipn_length; cbn [length] in *; lia.
+Qed.
+
+Lemma undecodable_tail_length fuel : forall s, (length (undecodable_tail_fuel fuel s) <= length s)%nat.
+Proof.
+  induction fuel as [|f IH]; intros s; cbn [undecodable_tail_fuel]; [lia|].
+  destruct (core_get_op s) as [o len|adv]; [|lia].
+  etransitivity; [apply IH|]. rewrite skipn_length. lia.
+Qed.
+
+Lemma fad_general pat : complete_instruction pat -> forall fuel s, (length s <= fuel)%nat ->
+  exists G, fad_fuel fuel pat s = G ++ undecodable_tail_fuel fuel s
+         /\ dws fuel s pat = G ++ dws fuel (undecodable_tail_fuel fuel s) pat.
+Proof.
+  intros [po Hpat] fuel. induction fuel as [|f IH]; intros s Hlen.
+  - destruct s; [|cbn in Hlen; lia]. exists []. split; reflexivity.
+  - cbn [fad_fuel undecodable_tail_fuel].
+    destruct (is_prefix pat s) eqn:EP.
+    + (* an occurrence of the pattern: it is the next instruction *)
+      pose proof (is_prefix_inv _ _ EP) as Hs.
+      assert (Hop : core_get_op s = GOk po (length pat)).
+      { rewrite Hs. now apply core_get_op_prefix. }
+      rewrite Hop.
+      assert (Hne : s <> []). { intros ->. destruct pat; [discriminate|]. discriminate. }
+      assert (Hpl : (1 <= length pat)%nat). { apply core_get_op_ok in Hpat. lia. }
+      destruct (IH (skipn (length pat) s)) as [G [HG1 HG2]]; [rewrite skipn_length; destruct s; [congruence|cbn [length] in *; lia]|].
+      exists G. split; [exact HG1|].
+      destruct s as [|b r]; [congruence|]. rewrite dws_cons.
+      unfold bridge_res. rewrite Hop. cbn [fst].
+      assert (Hsec : firstn (length pat) (b :: r) = pat).
+      { rewrite Hs at 1. apply firstn_app_exact. }
+      rewrite Hsec, bytes_eqb_refl. cbn [app]. rewrite HG2. f_equal.
+      apply dws_fuel.
+      * etransitivity; [apply undecodable_tail_length|]. rewrite skipn_length. cbn [length] in *. lia.
+      * etransitivity; [apply undecodable_tail_length|]. rewrite skipn_length. cbn [length] in *. lia.
+    + destruct (core_get_op s) as [o len|adv] eqn:Hop.
+      * pose proof (core_get_op_ok _ _ _ Hop) as [Hl [b [r [Hs _]]]].
+        destruct (IH (skipn len s)) as [G [HG1 HG2]]; [rewrite skipn_length; lia|].
+        exists (firstn len s ++ G). split; [now rewrite HG1, app_assoc|].
+        subst s. rewrite dws_cons. unfold bridge_res. rewrite Hop. cbn [fst].
+        destruct (bytes_eqb (firstn len (b :: r)) pat) eqn:EQ.
+        { exfalso. apply bytes_eqb_eq in EQ.
+          rewrite <- (firstn_skipn len (b :: r)), EQ, is_prefix_app in EP. discriminate. }
+        rewrite <- app_assoc. f_equal. rewrite HG2. f_equal.
+        apply dws_fuel.
+        -- etransitivity; [apply undecodable_tail_length|]. rewrite skipn_length. cbn [length] in *. lia.
+        -- etransitivity; [apply undecodable_tail_length|]. rewrite skipn_length. cbn [length] in *. lia.
+      * exists []. split; reflexivity.
+Qed.
+
+(* the exact relation, for every script and every pattern that is one complete instruction *)
+Lemma find_and_delete_general pat s : complete_instruction pat ->
+  exists G w, core_find_and_delete pat s = G ++ undecodable_tail s
+           /\ delete_subscript (undecodable_tail s) pat = Ret w
+           /\ delete_subscript s pat = Ret (G ++ w).
+Proof.
+  intros Hc. destruct (fad_general pat Hc (length s) s (le_n _)) as [G [H1 H2]].
+  exists G, (dws (length (undecodable_tail s)) (undecodable_tail s) pat).
+  unfold core_find_and_delete, undecodable_tail in *.
+  destruct pat as [|p0 pr]; [exfalso; now apply (complete_nonempty [] Hc)|].
+  split; [exact H1|]. split; [apply delete_subscript_dws|].
+  rewrite delete_subscript_dws, H2. f_equal. f_equal.
+  apply dws_fuel; [apply undecodable_tail_length | lia].
+Qed.
+
+Lemma find_and_delete_iff pat s : complete_instruction pat ->
+  (delete_subscript s pat = Ret (core_find_and_delete pat s) <-> rewalk_excluded pat s = false).
+Proof.
+  intros Hc. destruct (find_and_delete_general pat s Hc) as [G [w [H1 [H2 H3]]]].
+  unfold rewalk_excluded. rewrite H2, H3, H1. split.
+  - intros H. injection H as H. apply app_inv_head in H. subst w. now rewrite bytes_eqb_refl.
+  - intros H. destruct (bytes_eqb w (undecodable_tail s)) eqn:E; [|discriminate].
+    apply bytes_eqb_eq in E. now subst w.
+Qed.
+
+(* decodable scripts have no tail *)
+Lemma decodable_tail_nil fuel : forall s, decodable_fuel fuel s = true -> undecodable_tail_fuel fuel s = [].
+Proof.
+  induction fuel as [|f IH]; intros s H.
+  - destruct s; [reflexivity|discriminate].
+  - cbn [undecodable_tail_fuel]. destruct s as [|b r]; [reflexivity|].
+    cbn [decodable_fuel] in H. destruct (core_get_op (b :: r)) as [o len|adv]; [|discriminate].
+    now apply IH.
+Qed.
+
+Lemma find_and_delete_decodable pat s : complete_instruction pat -> core_decodable s = true ->
+  delete_subscript s pat = Ret (core_find_and_delete pat s).
+Proof.
+  intros Hc Hd. apply find_and_delete_iff; [exact Hc|].
+  unfold rewalk_excluded, undecodable_tail. rewrite (decodable_tail_nil _ _ Hd).
+  reflexivity.
+Qed.
+
+(* ================================================================================================
+   Part 5 — the pattern removed for a signature: pycoin's minimal push vs Core's CScript() << sig *)
+Lemma n2b_small_consts : n2b 0 = x00 /\ n2b 1 = x01 /\ n2b OP_PUSHDATA1 = x4c /\ n2b OP_PUSHDATA2 = x4d /\ n2b OP_PUSHDATA4 = x4e.
+Proof. repeat split; reflexivity. Qed.
+
+Lemma spec_push_core_push d : N.of_nat (length d) < 2 ^ 32 -> sig_pattern_excluded d = false ->
+  spec_push d = core_push d.
+Proof.
+  intros Hlen Hex. unfold core_push. destruct n2b_small_consts as (E0 & E1 & E76 & E77 & E78).
+  destruct d as [|b [|b2 r]].
+  - reflexivity.
+  - cbn [sig_pattern_excluded] in Hex. unfold spec_push.
+    change (N.of_nat (length [b])) with 1. change (1 <? OP_PUSHDATA1) with true. cbv iota. rewrite E1.
+    apply orb_false_iff in Hex. destruct Hex as [H1 H2]. rewrite H1, H2. reflexivity.
+  - unfold spec_push. set (d := b :: b2 :: r) in *. set (n := N.of_nat (length d)) in *.
+    unfold OP_PUSHDATA1 at 1. rewrite E76, E77, E78.
+    destruct (n <=? 75) eqn:A.
+    + replace (n <? 76) with true by lia. reflexivity.
+    + replace (n <? 76) with false by lia. reflexivity.
+Qed.
+
+Lemma firstn_app_le {A} (a b : list A) n : n = length a -> firstn n (a ++ b) = a.
+Proof. intros ->. apply firstn_app_exact. Qed.
+
+Lemma core_push_complete d : N.of_nat (length d) < 2 ^ 32 -> complete_instruction (core_push d).
+Proof.
+  intros Hlen. change (2 ^ 32) with 4294967296 in Hlen.
+  unfold core_push, complete_instruction, OP_PUSHDATA1, OP_PUSHDATA2, OP_PUSHDATA4.
+  set (n := N.of_nat (length d)) in *.
+  assert (Hvar : forall o w, (o = 76 /\ w = 1%nat) \/ (o = 77 /\ w = 2%nat) \/ (o = 78 /\ w = 4%nat) ->
+            n < 256 ^ N.of_nat w ->
+            core_get_op (n2b o :: le_encode w n ++ d) = GOk o (length (n2b o :: le_encode w n ++ d))).
+  { intros o w Ho Hn. unfold core_get_op, OP_PUSHDATA1, OP_PUSHDATA2, OP_PUSHDATA4.
+    assert (Hob : b2n (n2b o) = o) by (apply b2n_n2b; lia). rewrite Hob.
+    replace (o <=? 78) with true by lia. replace (o <? 76) with false by lia.
+    assert (Hw : (if o =? 76 then 1%nat else if o =? 77 then 2%nat else 4%nat) = w).
+    { destruct Ho as [[-> ->]|[[-> ->]|[-> ->]]]; reflexivity. }
+    rewrite Hw. rewrite app_length, le_encode_length.
+    replace (w + length d <? w)%nat with false by lia.
+    rewrite (firstn_app_le (le_encode w n) d w) by (now rewrite le_encode_length).
+    rewrite le_decode_encode by exact Hn.
+    replace (N.of_nat (w + length d - w) <? n) with false by (unfold n; lia).
+    cbn [length]. rewrite app_length, le_encode_length. f_equal. unfold n. lia. }
+  destruct (n <? 76) eqn:A.
+  - exists n. unfold core_get_op, OP_PUSHDATA1, OP_PUSHDATA2, OP_PUSHDATA4.
+    rewrite b2n_n2b by lia. replace (n <=? 78) with true by lia. rewrite A.
+    rewrite (proj2 (Nat.ltb_ge (length d) 0)) by lia. rewrite Nat.sub_0_r.
+    replace (N.of_nat (length d) <? n) with false by (unfold n; lia).
+    cbn [length]. f_equal. unfold n. lia.
+  - destruct (n <=? 255) eqn:B; [|destruct (n <=? 65535) eqn:C].
+    + exists 76. apply Hvar; [auto|]. change (256 ^ N.of_nat 1) with 256. lia.
+    + exists 77. apply Hvar; [auto|]. change (256 ^ N.of_nat 2) with 65536. lia.
+    + exists 78. apply Hvar; [auto|]. change (256 ^ N.of_nat 4) with 4294967296. lia.
+Qed.
+
+Lemma spec_push_complete d : N.of_nat (length d) < 2 ^ 32 -> complete_instruction (spec_push d).
+Proof.
+  intros Hlen. destruct (sig_pattern_excluded d) eqn:E.
+  - destruct d as [|b [|b2 r]]; try discriminate. cbn [sig_pattern_excluded] in E.
+    unfold spec_push. pose proof (b2n_lt b) as Hb.
+    destruct ((1 <=? b2n b) && (b2n b <=? 16)) eqn:A.
+    + exists (80 + b2n b). unfold core_get_op, OP_PUSHDATA4. rewrite b2n_n2b by lia.
+      replace (80 + b2n b <=? 78) with false by lia. reflexivity.
+    + cbn [orb] in E. rewrite E. exists 79. reflexivity.
+  - rewrite spec_push_core_push by assumption. now apply core_push_complete.
+Qed.
+
+Lemma codesep_complete : complete_instruction [n2b OP_CODESEPARATOR].
+Proof. exists OP_CODESEPARATOR. reflexivity. Qed.
+
+(* _delete_signature *)
+Lemma delete_signature_general script sig : N.of_nat (length sig) < 2 ^ 32 ->
+  exists G w, core_find_and_delete (spec_push sig) script = G ++ undecodable_tail script
+           /\ delete_subscript (undecodable_tail script) (spec_push sig) = Ret w
+           /\ delete_signature script sig = Ret (G ++ w).
+Proof.
+  intros Hlen. unfold delete_signature. rewrite push_is_spec by exact Hlen. cbn [bind].
+  apply find_and_delete_general. now apply spec_push_complete.
+Qed.
+
+Lemma delete_signature_iff script sig : N.of_nat (length sig) < 2 ^ 32 -> sig_pattern_excluded sig = false ->
+  (delete_signature script sig = Ret (core_find_and_delete (core_push sig) script)
+   <-> rewalk_excluded (core_push sig) script = false).
+Proof.
+  intros Hlen Hex. unfold delete_signature. rewrite push_is_spec by exact Hlen. cbn [bind].
+  rewrite spec_push_core_push by assumption.
+  apply find_and_delete_iff. now apply core_push_complete.
+Qed.
+
+Lemma delete_signature_decodable script sig : N.of_nat (length sig) < 2 ^ 32 ->
+  sig_pattern_excluded sig = false -> core_decodable script = true ->
+  delete_signature script sig = Ret (core_find_and_delete (core_push sig) script).
+Proof.
+  intros Hlen Hex Hd. unfold delete_signature. rewrite push_is_spec by exact Hlen. cbn [bind].
+  rewrite spec_push_core_push by assumption.
+  apply find_and_delete_decodable; [now apply core_push_complete | exact Hd].
+Qed.
+
+(* the patterns differ only for a one-byte blob: hash-type byte alone, empty DER part — never a valid signature *)
+Lemma pattern_differs_only_when_sig_unparseable sig :
+  sig_pattern_excluded sig = true -> length sig = 1%nat /\ removelast sig = [].
+Proof. destruct sig as [|b [|b2 r]]; try discriminate. intros _. split; reflexivity. Qed.
+
+(* ================================================================================================
+   Part 6 — serialization: the outcome-valued streamers succeed on in-range fields and write Core's bytes *)
+Definition txin_wf (i : txin) : Prop :=
+  length (ti_hash i) = 32%nat /\ ti_index i < 2 ^ 32 /\ ti_seq i < 2 ^ 32.
+Definition txout_wf (o : txout) : Prop :=
+  to_value o < 2 ^ 64 /\ N.of_nat (length (to_script o)) < 2 ^ 64.
+Definition tx_wf (t : tx) : Prop :=
+  tx_version t < 2 ^ 32 /\ tx_lock t < 2 ^ 32 /\ Forall txin_wf (tx_ins t) /\ Forall txout_wf (tx_outs t)
+  /\ N.of_nat (length (tx_ins t)) < 2 ^ 64 /\ N.of_nat (length (tx_outs t)) < 2 ^ 64.
+
+Lemma write_le4 v : v < 2 ^ 32 -> write_le 4 v = Ret (le32 v).
+Proof.
+  intros H. unfold write_le. change (256 ^ N.of_nat 4) with 4294967296. change (2 ^ 32) with 4294967296 in H.
+  replace (v <? 4294967296) with true by lia. reflexivity.
+Qed.
+Lemma write_le8 v : v < 2 ^ 64 -> write_le 8 v = Ret (le64 v).
+Proof.
+  intros H. unfold write_le. change (256 ^ N.of_nat 8) with 18446744073709551616.
+  change (2 ^ 64) with 18446744073709551616 in H.
+  replace (v <? 18446744073709551616) with true by lia. reflexivity.
+Qed.
+
+Lemma stream_varint_compact v : v < 2 ^ 64 -> stream_varint v = Ret (compact_size v).
+Proof.
+  intros H. unfold stream_varint, compact_size. rewrite (proj2 (N.ltb_lt _ _) H).
+  destruct (v <? 253); [reflexivity|]. destruct (v <=? 65535); [reflexivity|].
+  destruct (v <=? 4294967295); reflexivity.
+Qed.
+
+Lemma stream_varstr_ser s : N.of_nat (length s) < 2 ^ 64 -> stream_varstr s = Ret (ser_script s).
+Proof. intros H. unfold stream_varstr, ser_script. now rewrite stream_varint_compact. Qed.
+
+Lemma stream_all_pure {A} (f : A -> outcome bytes) (g : A -> bytes) l :
+  Forall (fun x => f x = Ret (g x)) l -> stream_all f l = Ret (flat_map g l).
+Proof.
+  induction 1 as [|x l Hx Hl IH]; [reflexivity|]. cbn [stream_all flat_map]. now rewrite Hx, IH.
+Qed.
+
+Lemma stream_txout_ser o : txout_wf o -> stream_txout o = Ret (ser_txout (to_core_out o)).
+Proof.
+  intros [Hv Hs]. unfold stream_txout, ser_txout, to_core_out. cbn [out_nValue out_scriptPubKey].
+  now rewrite write_le8, stream_varstr_ser.
+Qed.
+
+Definition ser_txin_pure (i : txin) : bytes :=
+  ti_hash i ++ le32 (ti_index i) ++ ser_script (ti_script i) ++ le32 (ti_seq i).
+Lemma stream_txin_ser i : txin_wf i -> N.of_nat (length (ti_script i)) < 2 ^ 64 ->
+  stream_txin i = Ret (ser_txin_pure i).
+Proof.
+  intros (Hh & Hi & Hq) Hs. unfold stream_txin, ser_txin_pure.
+  rewrite write_le4, stream_varstr_ser, write_le4 by assumption. cbn [bind].
+  rewrite firstn_all2 by lia. reflexivity.
+Qed.
+
+(* ---- list plumbing ------------------------------------------------------------------------------ *)
+Lemma enumerate_map {A B} (g : nat * A -> B) (l : list A) k :
+  enumerate_from k (map g (enumerate_from k l)) = map (fun p => (fst p, g p)) (enumerate_from k l).
+Proof.
+  revert k; induction l as [|x l IH]; intros k; [reflexivity|].
+  cbn [enumerate_from map fst]. f_equal. apply IH.
+Qed.
+
+Lemma flat_map_enumerate_seq {A} (F : nat * A -> bytes) (H : nat -> bytes) (l : list A) k :
+  (forall j x, nth_error l j = Some x -> F ((k + j)%nat, x) = H (k + j)%nat) ->
+  flat_map F (enumerate_from k l) = flat_map H (seq k (length l)).
+Proof.
+  revert k; induction l as [|x l IH]; intros k Hyp; [reflexivity|].
+  cbn [enumerate_from flat_map length seq]. f_equal.
+  - specialize (Hyp 0%nat x eq_refl). now rewrite Nat.add_0_r in Hyp.
+  - apply IH. intros j y Hj. specialize (Hyp (S j) y Hj). now rewrite Nat.add_succ_r in Hyp.
+Qed.
+
+Lemma flat_map_ext_in' {A B} (f g : A -> list B) l :
+  (forall a, In a l -> f a = g a) -> flat_map f l = flat_map g l.
+Proof.
+  induction l as [|x l IH]; intros H; [reflexivity|]. cbn [flat_map].
+  rewrite (H x) by now left. f_equal. apply IH. intros a Ha. apply H. now right.
+Qed.
+
+Lemma flat_map_seq_nth {A} (f : A -> bytes) (l : list A) d :
+  flat_map (fun i => f (nth i l d)) (seq 0 (length l)) = flat_map f l.
+Proof.
+  assert (G : forall k, flat_map (fun i => f (nth (i - k) l d)) (seq k (length l)) = flat_map f l).
+  { induction l as [|x l IH]; intros k; [reflexivity|].
+    cbn [length seq flat_map]. rewrite Nat.sub_diag. cbn [nth]. f_equal.
+    rewrite <- (IH (S k)). apply flat_map_ext_in'. intros i Hi. apply in_seq in Hi.
+    replace (i - k)%nat with (S (i - S k)) by lia. reflexivity. }
+  rewrite <- (G 0%nat). apply flat_map_ext. intros i. now rewrite Nat.sub_0_r.
+Qed.
+
+Lemma nth_map_some {A B} (f : A -> B) l j x d : nth_error l j = Some x -> nth j (map f l) d = f x.
+Proof.
+  intros H. apply nth_error_nth. rewrite nth_error_map, H. reflexivity.
+Qed.
+
+Lemma flat_map_repeat {A} (f : A -> bytes) x n (g : nat -> bytes) k :
+  (forall i, (k <= i < k + n)%nat -> g i = f x) ->
+  flat_map f (repeat x n) = flat_map g (seq k n).
+Proof.
+  revert k; induction n as [|n IH]; intros k Hyp; [reflexivity|].
+  cbn [repeat seq flat_map]. rewrite (Hyp k) by lia. f_equal. apply IH. intros i Hi. apply Hyp. lia.
+Qed.
+
+(* ---- SerializeScriptCode on a decodable script = length-prefixed FindAndDelete(OP_CODESEPARATOR) ---- *)
+Lemma is_prefix_codesep s : is_prefix [n2b OP_CODESEPARATOR] s = true <-> exists r, s = xab :: r.
+Proof.
+  change (n2b OP_CODESEPARATOR) with xab. destruct s as [|b r]; cbn [is_prefix].
+  - split; [discriminate|intros [r H]; discriminate].
+  - rewrite andb_true_r, byte_eqb_eq. split; [intros <-; eauto|intros [r' H]; now injection H].
+Qed.
+
+Lemma segments_fad fuel : forall s, (length s <= fuel)%nat -> decodable_fuel fuel s = true ->
+  write_segments fuel s = fad_fuel fuel [n2b OP_CODESEPARATOR] s
+  /\ (length (write_segments fuel s) + count_codeseps fuel s = length s)%nat.
+Proof.
+  induction fuel as [|f IH]; intros s Hlen Hd.
+  - destruct s; [split; reflexivity|cbn in Hlen; lia].
+  - destruct s as [|b r].
+    + cbn [write_segments count_codeseps fad_fuel]. cbn. split; reflexivity.
+    + cbn [decodable_fuel] in Hd. cbn [write_segments count_codeseps fad_fuel].
+      destruct (core_get_op (b :: r)) as [o len|adv] eqn:Hop; [|discriminate].
+      pose proof (core_get_op_ok _ _ _ Hop) as [Hl [b' [r' [Hs Ho]]]]. injection Hs as <- <-.
+      destruct (IH (skipn len (b :: r))) as [I1 I2]; [rewrite skipn_length; cbn [length] in *; lia|exact Hd|].
+      destruct (is_prefix [n2b OP_CODESEPARATOR] (b :: r)) eqn:EP.
+      * apply is_prefix_codesep in EP. destruct EP as [r0 E]. injection E as -> ->.
+        change (b2n xab) with 171 in Ho. subst o.
+        assert (len = 1%nat).
+        { unfold core_get_op in Hop. change (b2n xab <=? OP_PUSHDATA4) with false in Hop.
+          cbv iota in Hop. now injection Hop. }
+        subst len. change (171 =? OP_CODESEPARATOR) with true. cbv iota.
+        change (length [n2b OP_CODESEPARATOR]) with 1%nat. split; [exact I1|].
+        cbn [skipn length] in *. lia.
+      * assert (Hne : (o =? OP_CODESEPARATOR) = false).
+        { apply N.eqb_neq. intros E. subst o. unfold OP_CODESEPARATOR in E.
+          assert (b = xab) by (apply b2n_inj; rewrite E; reflexivity). subst b.
+          assert (is_prefix [n2b OP_CODESEPARATOR] (xab :: r) = true) by (apply is_prefix_codesep; eauto).
+          congruence. }
+        rewrite Hne. split; [now rewrite I1|].
+        rewrite app_length, firstn_length. rewrite skipn_length in I2. cbn [length] in *. lia.
+Qed.
+
+Lemma ser_script_code_decodable s : core_decodable s = true ->
+  ser_script_code s = ser_script (core_find_and_delete [n2b OP_CODESEPARATOR] s).
+Proof.
+  intros Hd. destruct (segments_fad (length s) s (le_n _) Hd) as [H1 H2].
+  unfold ser_script_code, ser_script, core_find_and_delete. rewrite <- H1.
+  do 2 f_equal. lia.
+Qed.
+
+Lemma dws_length sub fuel : forall s, (length (dws fuel s sub) <= length s)%nat.
+Proof.
+  induction fuel as [|f IH]; intros s; [cbn; lia|].
+  destruct s as [|b r]; [cbn; lia|]. rewrite dws_cons, app_length.
+  specialize (IH (skipn (fst (bridge_res (b :: r))) (b :: r))). rewrite skipn_length in IH.
+  assert (length (if bytes_eqb (firstn (fst (bridge_res (b :: r))) (b :: r)) sub then []
+                  else firstn (fst (bridge_res (b :: r))) (b :: r)) <= Nat.min (fst (bridge_res (b :: r))) (length (b :: r)))%nat.
+  { destruct (bytes_eqb _ _); [cbn; lia|]. rewrite firstn_length. lia. }
+  lia.
+Qed.
